@@ -45,13 +45,58 @@ def parsePres (s : String) : Option Pres :=
   if s == "hdr" then some .hdr else if s == "idx" then some .indexEh
   else if s == "dbg" then some .indexDebug else none
 
-/-- `none` | `dwarf;<pres>;fde|fde|...` -/
+/-- `off:p:<reg>` | `off:a:<bytes>` | `off:f` | `off:r:<reg>:<off>` | `off:x:<off>` | `off:m:<0|1>` -/
+def parsePeOp (s : String) : Option (Nat × PeOp) :=
+  match s.splitOn ":" with
+  | [o, "p", r] => do pure (← parseHex o, .popNonVolatile (← parseHex r))
+  | [o, "a", n] => do pure (← parseHex o, .unStackAlloc (← parseHex n))
+  | [o, "f"] => do pure (← parseHex o, .restoreSPFromFP)
+  | [o, "r", r, off] => do pure (← parseHex o, .readNonVolatile (← parseHex r) (← parseHex off))
+  | [o, "x", off] => do pure (← parseHex o, .readXMM (← parseHex off))
+  | [o, "m", e] => do pure (← parseHex o, .popMachineFrame (e == "1"))
+  | _ => none
+
+def parsePeInfo (s : String) : Option PeInfo :=
+  if s == "" then some { ops := [] }
+  else (s.splitOn ",").mapM parsePeOp |>.map fun ops => { ops := ops }
+
+/-- `a_<n>` | `f_<n>` | `p_<reg>` -/
+def parseEpiInsn (s : String) : Option EpiInsn :=
+  match s.splitOn "_" with
+  | ["a", n] => (parseHex n).map .addSP
+  | ["f", n] => (parseHex n).map .addSPFromFP
+  | ["p", r] => (parseHex r).map .pop
+  | _ => none
+
+/-- `off>ins.ins...` (an empty instruction list is `off>`) -/
+def parseEpilog (s : String) : Option (Nat × List EpiInsn) :=
+  match s.splitOn ">" with
+  | [o, ins] => do
+    let insns ← if ins == "" then some [] else (ins.splitOn ".").mapM parseEpiInsn
+    pure (← parseHex o, insns)
+  | _ => none
+
+/-- `start@stop@infoOk@freg@foff@textOk@info^info@epilog~epilog` -/
+def parsePeFunc (s : String) : Option PeFunc :=
+  match s.splitOn "@" with
+  | [start, stop, iok, freg, foff, tok, infos, epis] => do
+    let infos ← (infos.splitOn "^").mapM parsePeInfo
+    let epilogs ← if epis == "" then some [] else (epis.splitOn "~").mapM parseEpilog
+    let fr ← if freg == "-" then some none else (parseHex freg).map some
+    pure { start := ← parseHex start, stop := ← parseHex stop, infoOk := iok == "1", frameReg := fr,
+           frameOff := ← parseHex foff, infos := infos, textOk := tok == "1", epilogs := epilogs }
+  | _ => none
+
+/-- `none` | `dwarf;<pres>;fde|fde|...` | `pe;func|func|...` -/
 def parseData (s : String) : Option UnwindData :=
   match s.splitOn ";" with
   | ["none"] => some .none
   | ["dwarf", pres, fdes] => do
     let fdes ← if fdes == "" then some [] else (fdes.splitOn "|").mapM parseFde
     pure (.dwarf (← parsePres pres) fdes)
+  | ["pe", funcs] => do
+    let funcs ← if funcs == "" then some [] else (funcs.splitOn "|").mapM parsePeFunc
+    pure (.pe funcs)
   | _ => none
 
 /-- Arch-specific parsing/printing. -/
@@ -124,6 +169,17 @@ def pathTag (A : Arch) (N : Nat) (u : Unw) (c : Cache A.Rule) (addr : FrameAddr)
               match A.generic r (!addr.isReturn) regs mem with
               | .ok _ _ => "row-generic-ok"
               | .err _ => "row-generic-err"
+              | .panic _ => "row-generic-panic"
+        | .pe funcs =>
+          match A.pePlan funcs rel (!addr.isReturn) with
+          | none => "pe-unsupported"
+          | some (_, some _) => "pe-rule"
+          | some (.staticErr, none) => "pe-static-error"
+          | some (p, none) =>
+            match A.peRun p (!addr.isReturn) regs mem with
+            | .ok _ _ => "pe-interp-ok"
+            | .err _ => "pe-interp-err"
+            | .panic _ => "pe-interp-panic"
 
 /-- The row the module's DWARF data yields for a call, if any. -/
 def rowFor (u : Unw) (addr : FrameAddr) : Option Row :=
@@ -139,6 +195,7 @@ def rowFor (u : Unw) (addr : FrameAddr) : Option Row :=
         match dwarfLookup pres fdes m.baseSvma rel with
         | .row r => some r
         | _ => none
+      | .pe _ => none
 
 /-- What C05 demands of a call on x86-64 when the hypotheses of its theorems hold
 (`C05_x64_compressed_rule_is_dwarf_step`, `C05_x64_generic_is_dwarf_step`,
